@@ -4,3 +4,4 @@ import SedpackModel.Pool
 import SedpackModel.Iter
 import SedpackModel.Pipeline
 import SedpackModel.Tree
+import SedpackModel.Crash
